@@ -23,7 +23,14 @@ let handle (w : string list) : string =
     incr R_topic.opi;
     let (kind, ob) = split_kind kind0 in
     let n = n_of_string and z = z_of_string in
-    let o = match kind, args with
+    let opts w = if w = "-" then None else
+      (match String.split_on_char ':' w with
+       | [a; b; c] -> Some ((z a, z b), z c)
+       | _ -> failwith "opts") in
+    let q = match kind, args with
+      | "subget", [sid; want; bkg; gd; gl] ->
+        TopicOboC04.QSubGet (ob, n sid, bytes_of_hex want, bkg = "1", opts gd, opts gl)
+      | _ -> TopicOboC04.QReq (ob, (match kind, args with
       | "sub", [sid; want; bkg] -> OSub (n sid, bytes_of_hex want, bkg = "1")
       | "leave", [sid; unsub] -> OLeave (n sid, unsub = "1")
       | "pub", [sid; content; noecho] -> OPub (n sid, n content, noecho = "1")
@@ -37,8 +44,8 @@ let handle (w : string list) : string =
       | "delsub", [sid; target] -> ODelSub (n sid, n target)
       | "unload", [] -> OUnload
       | "restart", [] -> ORestart
-      | _ -> failwith ("bad op " ^ kind) in
-    (match TopicOboC04.ostep_f_c04 !R_topic.sm !roots !R_topic.st (R_topic.parse_fault flt, (ob, o)) with
+      | _ -> failwith ("bad op " ^ kind))) in
+    (match TopicOboC04.ostep_f_c04 !R_topic.sm !roots !R_topic.st (R_topic.parse_fault flt, q) with
      | None -> "op " ^ string_of_int !R_topic.opi ^ "\nUNMODELLED"
      | Some (x1, outs) ->
        R_topic.st := x1;
